@@ -456,6 +456,25 @@ def run_tables_pending_inserts(ctx):
                 ctx.bump("tables:pending-insert")
                 if got != want:
                     ctx.oracle_fail("tables:set-with-pending-inserts", dict(case, read=label, key=key), repr(want), repr(got))
+        # a table obtained from the store is the program's own value: a column added to it, or an index put on it,
+        # must not show in what the store returns for that key afterwards (no set happened)
+        prog2 = ['g::ts?"t/p"', 'g,"w",,[7 8 9]', '.index(g;["a"])']
+        case2 = dict(kind="tables-value-independence", program=prog + prog2 + ['ts?"t/p"'])
+        for st in prog2:
+            klong(st)
+        again = klong('ts?"t/p"')
+        cols = [str(c) for c in again.get_dataframe().columns]
+        rows = [[int(x) for x in r] for r in again.get_dataframe().values.tolist()]
+        idx = [int(i) for i in again.get_dataframe().index.tolist()]
+        ctx.count(("tables-independence",), nontrivial=True)
+        ctx.bump("tables:value-independence")
+        if cols != ["a", "b"] or rows != [[1, 10], [2, 20], [3, 30]] or idx != [0, 1, 2]:
+            ctx.oracle_fail("tables:get-latest-set", case2, "columns a b, rows [[1 10] [2 20] [3 30]], row index 0 1 2",
+                            f"columns {cols}, rows {rows}, index {idx}")
+        fc = klong("ts").cache
+        ent = sum(int(info[1]) for info in fc.file_futures.values())
+        if int(fc.current_memory_usage) != ent:
+            ctx.oracle_fail("tables:accounting", case2, f"mem == sum(entries)={ent}", f"mem={fc.current_memory_usage}")
     except Exception as e:
         ctx.oracle_fail(f"tables:pending:raises:{type(e).__name__}", case, "the program runs", repr(e))
     finally:
